@@ -347,6 +347,23 @@ def a5_run(carve):
             keyed("lit(5)", lambda t: pdt.lit(5), lambda r: 5)
             keyed("lit(5)", lambda t: pdt.lit(5), lambda r: 5, extra=(1,))
             keyed("lit(5, Int64)", lambda t: pdt.lit(5, pdt.Int64()), lambda r: 5, extra=(1,))
+            # grouping by columns of both sides of a join that had the same name in their source tables
+            if be == "polars":
+                u2 = pdt.Table(pl.DataFrame({"a": [1, 2, 2, None], "w": [5, 6, 7, 8]}), name="u2")
+            else:
+                pl.DataFrame({"a": [1, 2, 2, None], "w": [5, 6, 7, 8]}).write_database("u2", eng, if_table_exists="replace")
+                u2 = pdt.Table("u2", pdt.SqlAlchemy(eng))
+            jrows = [(r[0], ua) for r in rows for ua in (1, 2, 2, None) if (r[3] % 2 == 0) == (ua == 2 if ua is not None else False) or (ua is None and r[3] == 7)]
+            jg = {}
+            for ka, kb in jrows:
+                jg[(ka, kb)] = jg.get((ka, kb), 0) + 1
+            jcond = lambda: ((t.h % 2 == 0) & (u2.a == 2)) | ((t.h % 2 == 1) & (u2.a == 1)) | (u2.a.is_null() & (t.h == 7))  # noqa: E731
+            jrows = [(r[0], ua) for r in rows for ua in (1, 2, 2, None) if (r[3] % 2 == 0 and ua == 2) or (r[3] % 2 == 1 and ua == 1) or (ua is None and r[3] == 7)]
+            jg = {}
+            for ka, kb in jrows:
+                jg[(ka, kb)] = jg.get((ka, kb), 0) + 1
+            cases.append(("join(u2 with the same column name a) >> group_by(t.a, u2.a) >> summarize(n=count())", lambda: t >> pdt.inner_join(u2, jcond()) >> pdt.group_by(t.a, u2.a) >> pdt.summarize(n=pdt.count()), ["a", "a_u2", "n"], [k + (v,) for k, v in jg.items()]))
+            cases.append(("join(u2) >> group_by(t.a) >> group_by(u2.a, add=True) >> summarize(n=count())", lambda: t >> pdt.inner_join(u2, jcond()) >> pdt.group_by(t.a) >> pdt.group_by(u2.a, add=True) >> pdt.summarize(n=pdt.count()), ["a", "a_u2", "n"], [k + (v,) for k, v in jg.items()]))
             # summarize over a sliced table (through alias()): the aggregate sees exactly the sliced rows, also none
             srows = sorted(rows, key=lambda r: r[3])
             for nn, off in ((0, 0), (2, 1), (3, 5), (100, 0)):
